@@ -1191,6 +1191,23 @@ impl JsonSchema for DynTy {
 #[endpoint { method = GET, path = "/dyn" }]
 async fn dyn_endpoint(_r: RequestContext<()>) -> Result<HttpResponseOk<DynTy>, HttpError> { Ok(HttpResponseOk(DynTy)) }
 
+#[derive(Serialize)]
+struct DynHeaders { #[serde(rename = "x-dyn")] v: String }
+impl JsonSchema for DynHeaders {
+    fn schema_name() -> String { "DynHeaders".to_string() }
+    fn json_schema(_: &mut schemars::gen::SchemaGenerator) -> schemars::schema::Schema {
+        use schemars::schema::*;
+        let mut ov = ObjectValidation::default();
+        ov.properties.insert("x-dyn".to_string(), DYN_SCHEMA.lock().unwrap().clone().expect("schema set"));
+        ov.required.insert("x-dyn".to_string());
+        Schema::Object(SchemaObject { instance_type: Some(SingleOrVec::Single(Box::new(InstanceType::Object))), object: Some(Box::new(ov)), ..Default::default() })
+    }
+}
+#[endpoint { method = GET, path = "/dynh" }]
+async fn dynh_endpoint(_r: RequestContext<()>) -> Result<dropshot::HttpResponseHeaders<HttpResponseOk<u8>, DynHeaders>, HttpError> {
+    Ok(dropshot::HttpResponseHeaders::new(HttpResponseOk(0), DynHeaders { v: String::new() }))
+}
+
 /// {"op":"j2oas","schema":{JSON Schema keywords},"null_default":bool} -> published OpenAPI schema + keyword comparison
 fn op_j2oas(case: &Value) -> Value {
     let input = case["schema"].clone();
@@ -1208,6 +1225,18 @@ fn op_j2oas(case: &Value) -> Value {
         api.openapi("t", semver::Version::new(1, 0, 0)).json().unwrap()
     });
     let doc = match r { Ok(d) => d, Err(p) => return json!({"panic": p}) };
+    if case["as_header"].as_bool().unwrap_or(false) {
+        // the same schema as the type of a declared response header (placed through schema_extract_description)
+        let r = crate::quiet(|| {
+            let mut api = ApiDescription::<()>::new();
+            api.register(dynh_endpoint).unwrap();
+            api.openapi("t", semver::Version::new(1, 0, 0)).json().unwrap()
+        });
+        return match r {
+            Ok(d) => json!({"header": d["paths"]["/dynh"]["get"]["responses"]["200"]["headers"]["x-dyn"].clone()}),
+            Err(p) => json!({"panic": p}),
+        };
+    }
     let out = doc["paths"]["/dyn"]["get"]["responses"]["200"]["content"]["application/json"]["schema"].clone();
     let num = |v: &Value| v.as_f64();
     let mut equivalent = out["type"] == input["type"];
